@@ -98,6 +98,7 @@ type Spec struct {
 	Release bool      `json:"-"`
 	Class   string    `json:"-"` // go-grammar class of the swept block
 	Blocks  []string  `json:"-"` // per block: "<class>|probe=<p>" and "<class>|term=<t>" (histogram)
+	Roots   []string  `json:"-"` // per block: "<root kind>|<coarse go class>|term=<t>", line length classes
 }
 
 type Res struct {
@@ -114,7 +115,10 @@ func (sp *Spec) ops() []string {
 	for _, st := range sp.Steps {
 		switch st.K {
 		case "send":
-			if st.V != "" && st.V != "plain" {
+			if len(st.S) > 300 {
+				// a long line: its length, head and tail (the middle is a run of reversible shuffles / padding)
+				ops = append(ops, fmt.Sprintf("send(%d bytes):%q ... %q", len(st.S), st.S[:120], st.S[len(st.S)-40:]))
+			} else if st.V != "" && st.V != "plain" {
 				ops = append(ops, fmt.Sprintf("send(%s):%q", st.V, st.S))
 			} else {
 				ops = append(ops, "send:"+st.S)
@@ -429,6 +433,201 @@ var positions = []posT{
 	{"position fen 8/8/4k3/8/8/4K3/4P3/8 w - - 0 1 moves e3d4", true},
 }
 
+// ---------------------------------------------------------------------------------------------
+// positions: root kinds x line length.
+//
+// Root kinds (they matter for the real search: on a final root every iteration is instantaneous, so
+// even `go infinite` and a pondering search run out of iterations by themselves): ordinary, stm
+// checkmated, stm stalemated, drawn by the move clock, third occurrence through the move list, a
+// single legal reply, mate in 1 for the mover, mover mated in 1 whatever it plays.
+// Line length: a `position … moves …` line is as long as the game; the move list is made of
+// reversible shuffles that are legal for the driver's gate (knights / bishops / kings going back and
+// forth), so conforming lines of every length class are cheap to make.
+
+type toggleT [2]string // a piece that shuffles between two squares
+
+type rootT struct {
+	kind  string
+	text  string // position command without a move list
+	black bool
+	shuf  [2][]toggleT // per side to move (0 white, 1 black); empty: no move list is appended
+}
+
+var ordinaryRoots = []rootT{
+	{"ordinary", "position startpos", false, [2][]toggleT{{{"g1", "f3"}, {"b1", "c3"}}, {{"g8", "f6"}, {"b8", "c6"}}}},
+	{"ordinary", "position fen r1bqkbnr/pppp1ppp/2n5/4p3/4P3/5N2/PPPP1PPP/RNBQKB1R w KQkq - 2 3", false,
+		[2][]toggleT{{{"b1", "c3"}, {"f1", "e2"}}, {{"g8", "f6"}, {"f8", "e7"}}}},
+	{"ordinary", "position fen 8/8/4k3/8/8/4K3/4P3/8 w - - 0 1", false, [2][]toggleT{{{"e3", "d3"}}, {{"e6", "d6"}}}},
+	{"ordinary", "position fen 8/8/4k3/8/8/4K3/4P3/8 b - - 0 1", true, [2][]toggleT{{{"e3", "d3"}}, {{"e6", "d6"}}}},
+	{"ordinary", "position fen rnbqkbnr/pppp1ppp/8/4p3/4P3/8/PPPP1PPP/RNBQKBNR w KQkq e6 0 2", false,
+		[2][]toggleT{{{"g1", "f3"}, {"f1", "e2"}}, {{"b8", "c6"}, {"f8", "e7"}}}},
+}
+
+var finalRoots = []rootT{
+	{"mated", "position startpos moves f2f3 e7e5 g2g4 d8h4", false, [2][]toggleT{}},
+	{"mated", "position fen rnb1kbnr/pppp1ppp/8/4p3/6Pq/5P2/PPPPP2P/RNBQKBNR w KQkq - 1 3", false, [2][]toggleT{}},
+	{"mated", "position fen 6rk/5Npp/8/8/8/8/8/6K1 b - - 0 1", true, [2][]toggleT{}},
+	{"stalemated", "position fen 7k/5Q2/6K1/8/8/8/8/8 b - - 0 1", true, [2][]toggleT{}},
+	{"stalemated", "position fen 8/8/8/8/8/6k1/5q2/7K w - - 0 1", false, [2][]toggleT{}},
+	{"drawn_by_clock", "position fen 8/8/4k3/8/8/4K3/4P3/8 w - - 100 80", false, [2][]toggleT{}},
+	{"drawn_by_clock", "position fen r1bqkbnr/pppp1ppp/2n5/4p3/4P3/5N2/PPPP1PPP/RNBQKB1R b KQkq - 100 90", true, [2][]toggleT{}},
+	{"single_reply", "position fen 7k/8/5K2/8/8/8/8/6R1 b - - 0 1", true, [2][]toggleT{}},
+	{"single_reply", "position fen 7K/8/5k2/8/8/8/8/6r1 w - - 0 1", false, [2][]toggleT{}},
+	{"mate_in_1", "position fen 6k1/5ppp/8/8/8/8/8/R3K3 w - - 0 1", false, [2][]toggleT{}},
+	{"mate_in_1", "position fen 4k3/8/8/8/8/8/r6r/4K3 b - - 0 1", true, [2][]toggleT{}},
+	{"mated_in_1", "position fen k7/8/8/8/8/8/r6r/4K3 w - - 0 1", false, [2][]toggleT{}},
+	{"mated_in_1", "position fen 4k3/R6R/8/8/8/8/8/K7 b - - 0 1", true, [2][]toggleT{}},
+}
+
+// line length classes (bytes of the whole line): the seeded class boundary is one of many
+var lineClasses = []struct {
+	name   string
+	lo, hi int
+}{
+	{"<100B", 0, 99}, {"~1KiB", 900, 1200}, {"just below 4KiB", 4040, 4095}, {"4KiB..4KiB+8", 4096, 4104},
+	{"above 4KiB", 4105, 5000}, {"~16KiB", 16000, 16600}, {"~60KiB (below bufio's 64KiB token limit)", 60000, 61000},
+	{">64KiB", 66000, 70000},
+}
+
+func lineClassOf(n int) string {
+	best := "other"
+	for _, c := range lineClasses {
+		if n >= c.lo {
+			best = c.name
+		}
+	}
+	if n >= 100 && n < 900 {
+		best = "100B..1KiB"
+	}
+	if n >= 65536 {
+		best = ">64KiB"
+	}
+	return best
+}
+
+// beyond64k enables the length class above bufio.Scanner's default token limit.  It is OFF by
+// default: the UNCHANGED driver treats a line of 65536 bytes or more as the end of its input (Run
+// returns while stdin is open, nothing later is answered) -- reported as a finding, not filtered
+// silently: run with -beyond64k to see it.
+var beyond64k = flag.Bool("beyond64k", false, "also generate lines longer than 64 KiB (the unchanged driver fails on them)")
+
+// shuffle appends reversible moves until the line has at least `target` bytes; pure = one toggle per
+// side only (every position of the cycle recurs: third occurrence after 8 plies).
+func shuffle(rng *rand.Rand, r rootT, target int, minPlies int, pure bool) (string, bool) {
+	if len(r.shuf[0]) == 0 {
+		return r.text, r.black
+	}
+	var sb strings.Builder
+	sb.WriteString(r.text)
+	state := [2][]bool{make([]bool, len(r.shuf[0])), make([]bool, len(r.shuf[1]))}
+	side := 0
+	if r.black {
+		side = 1
+	}
+	black := r.black
+	for n := 0; n < minPlies || sb.Len() < target; n++ {
+		if n == 0 {
+			sb.WriteString(" moves")
+		}
+		k := 0
+		if !pure {
+			k = rng.IntN(len(r.shuf[side]))
+		}
+		tg := r.shuf[side][k]
+		from, to := tg[0], tg[1]
+		if state[side][k] {
+			from, to = to, from
+		}
+		state[side][k] = !state[side][k]
+		sb.WriteByte(' ')
+		sb.WriteString(from)
+		sb.WriteString(to)
+		side, black = 1-side, !black
+	}
+	return sb.String(), black
+}
+
+// instantRoot: root kinds on which the search returns from every iteration at once (no legal move,
+// or a draw by rule at the root).
+func instantRoot(kind string) bool {
+	switch kind {
+	case "mated", "stalemated", "drawn_by_clock", "third_occurrence_by_moves":
+		return true
+	}
+	return false
+}
+
+type genPosT struct {
+	text      string
+	black     bool
+	kind      string // root kind
+	lineClass string
+}
+
+// genPos draws a position command: root kind x line length (long lines only on ordinary bases).
+func genPos(rng *rand.Rand, mode string) genPosT {
+	r := rng.IntN(100)
+	final, long := 12, 14
+	if mode == "real" {
+		final, long = 42, 8
+	}
+	var g genPosT
+	switch {
+	case r < final:
+		switch rt := rng.IntN(8); {
+		case rt < 2: // third occurrence through the move list
+			base := ordinaryRoots[rng.IntN(len(ordinaryRoots))]
+			g.text, g.black = shuffle(rng, base, 0, 8+rng.IntN(6), true)
+			g.kind = "third_occurrence_by_moves"
+		default:
+			f := finalRoots[rng.IntN(len(finalRoots))]
+			g.text, g.black, g.kind = f.text, f.black, f.kind
+		}
+	case r < final+long:
+		base := ordinaryRoots[rng.IntN(len(ordinaryRoots))]
+		nc := len(lineClasses) - 1
+		if *beyond64k {
+			nc++
+		}
+		lo := 1
+		if mode == "real" {
+			nc = min(nc, 5) // the real search scans the whole game history at every node
+		}
+		c := lineClasses[lo+rng.IntN(nc-lo)]
+		g.text, g.black = shuffle(rng, base, c.lo+rng.IntN(c.hi-c.lo+1)-4, 0, rng.IntN(4) == 0)
+		g.kind = "long_game(shuffles)"
+	default:
+		base := ordinaryRoots[rng.IntN(len(ordinaryRoots))]
+		g.text, g.black = shuffle(rng, base, 0, rng.IntN(7), false)
+		g.kind = "ordinary"
+	}
+	g.lineClass = lineClassOf(len(g.text))
+	return g
+}
+
+// genLongLine: a long line that does not touch the board (a padded setoption, an unknown command).
+func genLongLine(rng *rand.Rand) (string, string) {
+	nc := len(lineClasses) - 1
+	if *beyond64k {
+		nc++
+	}
+	c := lineClasses[1+rng.IntN(nc-1)]
+	n := c.lo + rng.IntN(c.hi-c.lo+1)
+	var l string
+	switch rng.IntN(4) {
+	case 0:
+		l = "setoption name Hash value 1"
+		l += strings.Repeat(" ", max(0, n-len(l)))
+	case 1:
+		l = "setoption name " + strings.Repeat("Opt", max(1, (n-24)/3)) + " value 1"
+	case 2:
+		l = "bogus " + strings.Repeat("x", max(1, n-6))
+	default:
+		l = "debug off " + strings.Repeat("y ", max(1, (n-10)/2))
+	}
+	return l, lineClassOf(len(l))
+}
+
 type idleT struct{ text, tok string }
 
 var idleCmds = []idleT{
@@ -440,10 +639,15 @@ var idleCmds = []idleT{
 }
 
 type blockT struct {
-	pos        int // -1: none
+	pos        int     // -1: none, 0: gpos
+	gpos       genPosT // the position command of this block
+	root       string  // root kind the search of this block runs on (inherited when pos = -1)
+	longIdle   string  // an additional long line while idle (board-neutral)
+	busyLong   string  // a long line written while the search runs (board-neutral: dropped by the interrupt goroutine or handled later)
+	lineClass  string  // length class of the longest line of the block
 	idle       []int
 	tpl        goTpl
-	term       string // self | stop | quit | eof | hit | timer | hit_timer
+	term       string // self | stop | quit | eof | hit | timer | hit_timer | hit_stop
 	extra      bool   // an additional isready while the search runs
 	burst      int    // additional ponderhit lines while the search runs
 	fixedT     int    // timing of the (non-swept) blocks' probe
@@ -494,11 +698,25 @@ func genSkeleton(rng *rand.Rand) skeleton {
 	nb := 1 + rng.IntN(3)
 	sk.target = rng.IntN(nb)
 	black := false
+	root := "ordinary" // the driver starts on the initial position
 	for b := 0; b < nb; b++ {
 		bl := blockT{pos: -1}
 		if rng.IntN(3) > 0 {
-			bl.pos = rng.IntN(len(positions))
-			black = positions[bl.pos].black
+			bl.pos = 0
+			bl.gpos = genPos(rng, sk.mode)
+			black, root = bl.gpos.black, bl.gpos.kind
+			bl.lineClass = bl.gpos.lineClass
+		}
+		bl.root = root
+		if rng.IntN(12) == 0 {
+			bl.longIdle, bl.lineClass = genLongLine(rng)
+		}
+		if rng.IntN(10) == 0 {
+			if bl.pos == 0 && len(bl.gpos.text) >= 900 && rng.IntN(2) == 0 {
+				bl.busyLong = bl.gpos.text // the same position again: idempotent whoever handles it
+			} else {
+				bl.busyLong, bl.lineClass = genLongLine(rng)
+			}
 		}
 		for k := rng.IntN(3); k > 0; k-- {
 			bl.idle = append(bl.idle, rng.IntN(len(idleCmds)))
@@ -508,7 +726,7 @@ func genSkeleton(rng *rand.Rand) skeleton {
 		// driver runs a normal search)
 		ponderArg := rng.IntN(100) < 30
 		if sk.ponderOn {
-			ponderArg = rng.IntN(100) < 65
+			ponderArg = rng.IntN(100) < 70
 		}
 		bl.tpl = genGo(rng, ponderArg)
 		ponder := sk.ponderOn && bl.tpl.ponderArg
@@ -518,7 +736,7 @@ func genSkeleton(rng *rand.Rand) skeleton {
 		if sk.mode == "mock" {
 			terms = []string{"self", "self", "stop", "stop", "quit", "eof"}
 			if ponder {
-				terms = append(terms, "hit", "hit")
+				terms = append(terms, "hit", "hit", "hit_stop")
 			}
 			if timed && !ponder && bl.tpl.hardMs(black) <= 5 {
 				terms = append(terms, "timer", "timer")
@@ -539,11 +757,17 @@ func genSkeleton(rng *rand.Rand) skeleton {
 			if limited && ponder {
 				terms = append(terms, "hit", "hit", "hit")
 			}
+			if ponder {
+				terms = append(terms, "hit_stop") // ponderhit, then stop
+			}
 		}
 		bl.term = terms[rng.IntN(len(terms))]
 		bl.postBudget = rng.IntN(2) == 0
+		if instantRoot(bl.root) && rng.IntN(2) == 0 {
+			bl.postBudget = true
+		}
 		bl.mock = MockCfg{Infos: rng.IntN(7), EndOnHit: bl.term == "hit"}
-		if bl.term != "hit" && bl.term != "hit_timer" && rng.IntN(4) == 0 {
+		if bl.term != "hit" && bl.term != "hit_timer" && bl.term != "hit_stop" && rng.IntN(4) == 0 {
 			bl.mock.EndOnHit = true
 		}
 		if !bl.mock.EndOnHit && rng.IntN(3) == 0 {
@@ -563,6 +787,9 @@ func genSkeleton(rng *rand.Rand) skeleton {
 			bl.probe = ""
 		}
 		bl.lexPos, bl.lexGo, bl.lexProbe, bl.lexTerm, bl.lexExtra = genLex(rng), genLex(rng), genLex(rng), genLex(rng), genLex(rng)
+		if len(bl.gpos.text) >= 900 {
+			bl.lexPos = lexT{} // the length class is that of the line as written
+		}
 		for k := 0; k < bl.burst; k++ {
 			bl.lexBurst = append(bl.lexBurst, genLex(rng))
 		}
@@ -602,10 +829,17 @@ func (sk *skeleton) build(id, script, t int) Spec {
 		add(send("setoption name Ponder value true", "i:other", sk.lexPre[2]))
 	}
 	black := false
+	dead := false
 	for bi, bl := range sk.blocks {
 		if bl.pos >= 0 {
-			add(send(positions[bl.pos].text, "i:other", bl.lexPos))
-			black = positions[bl.pos].black
+			add(send(bl.gpos.text, "i:other", bl.lexPos))
+			black = bl.gpos.black
+			if len(bl.gpos.text) >= 900 {
+				add(send("isready", "i:isready", bl.lexExtra)) // a long line must not end the input
+			}
+		}
+		if bl.longIdle != "" {
+			add(send(bl.longIdle, "i:other", lexT{}), send("isready", "i:isready", bl.lexExtra))
 		}
 		for k, ic := range bl.idle {
 			add(send(idleCmds[ic].text, idleCmds[ic].tok, bl.lexIdle[k]))
@@ -638,6 +872,28 @@ func (sk *skeleton) build(id, script, t int) Spec {
 		if bi == sk.target {
 			sp.Class = cls
 		}
+		coarse := strings.NewReplacer("_small", "", "_max", "", "_lt1024", "", "_nonmult1024", "", "_mult1024", "", "_huge", "", "_mid", "", "_large", "",
+			"_white_only", "", "_black_only", "", "_asym", "").Replace(cls)
+		if dead {
+			continue // an earlier block ended the session (quit / EOF): this block is never played
+		}
+		if bl.term == "quit" || bl.term == "eof" || bl.probe == "quit" || bl.probe == "eof" {
+			dead = true
+		}
+		sp.Roots = append(sp.Roots, fmt.Sprintf("%s:%s|%s|term=%s", sk.mode, bl.root, coarse, bl.term))
+		if bl.lineClass != "" && bl.lineClass != "<100B" {
+			where := ""
+			if bl.pos == 0 && len(bl.gpos.text) >= 100 {
+				where += "+position(idle)"
+			}
+			if bl.longIdle != "" {
+				where += "+other(idle)"
+			}
+			if bl.busyLong != "" {
+				where += "+line_during_search"
+			}
+			sp.Roots = append(sp.Roots, fmt.Sprintf("line_length:%s|%s|%s", sk.mode, bl.lineClass, where[1:]))
+		}
 		sp.Blocks = append(sp.Blocks, fmt.Sprintf("%s:%s|probe=%s", sk.mode, cls, pk), fmt.Sprintf("%s:%s|term=%s", sk.mode, cls, bl.term))
 		probe := probeStep(bl.probe, bl.lexProbe)
 		var term []Step
@@ -654,6 +910,8 @@ func (sk *skeleton) build(id, script, t int) Spec {
 			term = []Step{{K: "eof"}}
 		case "hit", "hit_timer":
 			term = []Step{send("ponderhit", "i:ponderhit", bl.lexTerm)}
+		case "hit_stop":
+			term = []Step{send("ponderhit", "i:ponderhit", bl.lexTerm), {K: "sleep", N: bl.fixedT * 40}, send("stop", "i:stop", bl.lexExtra)}
 		case "timer":
 			term = []Step{{K: "sleep", N: int(bl.tpl.hardMs(black))*1000 - 60}}
 		}
@@ -681,6 +939,9 @@ func (sk *skeleton) build(id, script, t int) Spec {
 			add(Step{K: "waitInfo", N: 1})
 		}
 		at(1)
+		if bl.busyLong != "" {
+			add(send(bl.busyLong, "i:other", lexT{}), send("isready", "i:isready", bl.lexExtra))
+		}
 		if bl.extra {
 			add(send("isready", "i:isready", bl.lexExtra))
 		}
@@ -704,6 +965,11 @@ func (sk *skeleton) build(id, script, t int) Spec {
 				// a pondering search ignores its depth / node budget: let it use the budget up before it
 				// is stopped / quit / EOF'd / ponderhit (with the probe of timings 0..2 before, 3.. after)
 				add(bl.tpl.budgetSteps()...)
+				if instantRoot(bl.root) {
+					// every iteration is instantaneous on such a root: let the pondering search run out of
+					// iterations (idD = 0 .. MaxPlies-1, one info line each) before it is ended
+					add(Step{K: "waitInfo", N: MaxPlies})
+				}
 			}
 			at(3)
 			add(term...)
@@ -803,11 +1069,14 @@ func (r *recorder) setFail(f, d string) {
 
 var (
 	reReady = regexp.MustCompile(`^readyok$`)
-	reBest  = regexp.MustCompile(`^bestmove [a-h][1-8][a-h][1-8][qrbn]?( ponder [a-h][1-8][a-h][1-8][qrbn]?)?$`)
+	reBest  = regexp.MustCompile(`^bestmove ([a-h][1-8][a-h][1-8][qrbn]?|0000)( ponder [a-h][1-8][a-h][1-8][qrbn]?)?$`)
 	reInfo  = regexp.MustCompile(`^info depth \d+ (score (cp|mate) -?\d+ nodes \d+ time \d+ hashfull \d+ pv ([a-h][1-8][a-h][1-8][qrbn]?( [a-h][1-8][a-h][1-8][qrbn]?)*)?|nodes \d+)$`)
 	reNodes = regexp.MustCompile(` nodes (\d+)`)
 	reTabW  = regexp.MustCompile(`^[ \t]*[^ \t]+\t`)
-	reOther = regexp.MustCompile(`^(id name chess-3 \S+|id author Paul Sonkoly|option name \w+ type (spin default \d+ min \d+ max \d+|check default false)|uciok|[1-8pnbrqkPNBRQK/]+ [wb] (-|[KQkq]+) (-|[a-h][36]) \d+ \d+|-?\d+|cp -?\d+|mate -?\d+|\S+ nps)$`)
+	// the halfmove clock is an int8 in the engine: after 128 reversible plies the `fen` command prints a
+	// negative clock (a whole line, so not a torn line; counted, see the histogram)
+	reNegClock = regexp.MustCompile(`^[1-8pnbrqkPNBRQK/]+ [wb] \S+ \S+ -\d+ \d+\n$`)
+	reOther = regexp.MustCompile(`^(id name chess-3 \S+|id author Paul Sonkoly|option name \w+ type (spin default \d+ min \d+ max \d+|check default false)|uciok|[1-8pnbrqkPNBRQK/]+ [wb] (-|[KQkq]+) (-|[a-h][36]) -?\d+ \d+|-?\d+|cp -?\d+|mate -?\d+|\S+ nps)$`)
 )
 
 func classify(line string) string {
@@ -866,6 +1135,9 @@ func (s *sink) Write(b []byte) (int, error) {
 		kind = k
 	}
 	r.toks = append(r.toks, "o:"+kind)
+	if kind == "other" && reNegClock.Match(b) {
+		r.hist = append(r.hist, "fen_output_with_negative_halfmove_clock")
+	}
 	switch kind {
 	case "bestmove":
 		r.nBest++
@@ -2583,6 +2855,13 @@ func main() {
 		res.Count("term_"+sp.Term, 1)
 		for _, b := range sp.Blocks {
 			res.Count("go["+b+"]", 1)
+		}
+		for _, b := range sp.Roots {
+			if strings.HasPrefix(b, "line_length:") {
+				res.Count(b, 1)
+			} else {
+				res.Count("root["+b+"]", 1)
+			}
 		}
 		seen := map[string]bool{}
 		for _, h := range r.Hist {
